@@ -114,8 +114,8 @@ Single-record fields and stability (case['wl'] = ['one', field, shape]): every s
 configuration with exactly ONE record in the four shapes it can come about - the record on the field line of parsed
 text ('text-single'), on a continuation line ('text-multi'), a built object given a LIST holding the record
 ('build-list') or the BARE record ('build-bare'; case['bare'] lists such fields, also drawn for 30 % of the one-record
-fields of the enumerated / random built cases).  For these and for every other single-dump case with a one-record
-field (a quarter of the remaining ones) parse -> dump -> parse must be stable: the value shape (list / bare record) of
+fields of the enumerated / random built cases).  For these, for every second other single-dump case with a one-record
+field and for an eighth of the remaining ones parse -> dump -> parse must be stable: the value shape (list / bare record) of
 every field after the re-parse equals the one after the first parse (parsed cases), and the re-parsed object dumps to
 exactly the text it was parsed from (parsed and built cases; all three text layouts, both build shapes).
 """
@@ -230,9 +230,10 @@ RULE = ('One case = one paragraph of one class (Dsc, Changes, BuildInfo, PdiffIn
         'routes, constructor spellings included) one present field (rotating with the length of the text) is compared as a whole: '
         'value == dicts / dicts == value with the same records as plain dicts whose keys are in reversed or shuffled order (a list '
         'of dicts for a list-valued field, one dict for a field exposed as a bare record).  On every parse of a generated text and on '
-        'the re-parse of every single-dump built case additionally one record of that field in detail: rec == d, d != rec (keys in '
-        'column order), d == rec, rec != d (reversed), rec == d, rec != d (shuffled); a dict that differs in exactly ONE sub-field '
-        'value (the column rotates: first column, size, middle, last) must be unequal in both directions and != must be true; for a '
+        'the re-parse of every single-dump built case additionally one record of that field in detail: two of the three pairs rec == d, '
+        'd != rec (keys in column order) / d == rec, rec != d (reversed) / rec == d, rec != d (shuffled), rotating; a dict that differs '
+        'in exactly ONE sub-field value (the column rotates: first column, size, middle, last) must be unequal (rec == d or d == rec, '
+        'alternating) and rec != d must be true; for a '
         'list-valued field d in records, records.index(d) == index of the first equal record, and either a differing dict is not in '
         'the list or a list of dicts differing in one sub-field of one record is unequal (== false, != true); every fourth time '
         'the record against a Deb822Dict built from the reversed pairs (both directions), every fourth time against a dict whose '
@@ -247,8 +248,8 @@ RULE = ('One case = one paragraph of one class (Dsc, Changes, BuildInfo, PdiffIn
         'a continuation line, built object given a LIST holding the record, built object given the BARE record (para[f] = rec)}, '
         'the other structured fields absent / a random subset with 1..4 records / a random subset with one record each in shapes '
         'of their own; input form and dump route rotate.  In the enumerated and random built cases 30 % of the one-record fields '
-        'are handed over bare as well.  For every single-dump case that has a one-record field, and for a quarter of the others '
-        '(length of the dumped text divisible by 4), parse -> dump -> parse is judged for stability: (parsed cases, any of the '
+        'are handed over bare as well.  For every case of this class, for every second other single-dump case that has a one-record '
+        'field and for an eighth of the rest (decided by the length of the dumped text), parse -> dump -> parse is judged for stability: (parsed cases, any of the '
         'three layouts) every field is exposed by the parse of the dump in the same value shape - list or bare record - as by '
         'the first parse; (parsed and built cases) the object parsed from the dump, given the same size_field_behavior, dumps '
         'to exactly the text it was parsed from (which implies that a third parse equals the second).  '
@@ -417,9 +418,9 @@ REPS4 = {'quick': 20, 'thorough': 150}         # fillings per (config, subset, m
 PD_MAXK = {'quick': 3, 'thorough': 4}          # PdiffIndex: all subsets up to this size ...
 PD_REPS = {'quick': 2, 'thorough': 6}
 PD_RANDOM = {'quick': 300, 'thorough': 2000}   # ... plus this many random larger subsets
-RANDOM = {'quick': 12000, 'thorough': 600000}   # free random stream
+RANDOM = {'quick': 11400, 'thorough': 570000}   # free random stream
 PD_EXTRA = {'quick': 1200, 'thorough': 40000}   # PdiffIndex Current-as-list / single-line 3-column cases
-HIST = {'quick': 6000, 'thorough': 200000}      # histories (one object, 2..4 dumps with mutations between)
+HIST = {'quick': 5800, 'thorough': 194000}      # histories (one object, 2..4 dumps with mutations between)
 # mixed text layout (first record on the field line, further records on continuation lines)
 MIXED_P = 0.25                                  # share of >= 2-record fields of ANY parsed text written that way
 MIXED_REPS = {'quick': 10, 'thorough': 150}     # fillings per (config, structured field, record count 2..4)
@@ -1570,50 +1571,119 @@ for _tier in ('quick', 'thorough'):
 # A run that never compares a record with == or never re-dumps a re-parsed one-record field is INCONCLUSIVE, not held.
 _EQ_FLOORS = {
     'quick': {
-        'monitors': {'M.eq': 38000, 'M.eq.cmp': 360000, 'M.eq.full': 16000, 'M.eq.two-parses': 12000, 'M.one': 200,
-                     'M.stable': 9100, 'M.stable.one-record': 11000, 'M.stable.redump-with-one-record-field': 6900},
-        'counters': {'build:bare-record-value': 840, 'build:bare-record-value:BuildInfo': 69,
-                     'build:bare-record-value:Changes': 69, 'build:bare-record-value:Dsc': 65,
-                     'build:bare-record-value:PdiffIndex': 480, 'build:bare-record-value:Release-apt-ftparchive': 72,
-                     'build:bare-record-value:Release-dak': 65, 'eq:differs-in:first-column': 5500,
-                     'eq:differs-in:last-column': 5100, 'eq:differs-in:middle-column': 200, 'eq:differs-in:size':
-                     5500, 'eq:field-value:bare-record:reversed-key-order:dicts==value': 750,
+        'monitors': {'M.eq': 37000, 'M.eq.cmp': 310000, 'M.eq.full': 16000, 'M.eq.two-parses': 12000, 'M.one': 200,
+                     'M.stable': 4500, 'M.stable.one-record': 5700, 'M.stable.redump-with-one-record-field': 3400},
+        'counters': {'build:bare-record-value': 830, 'build:bare-record-value:BuildInfo': 67,
+                     'build:bare-record-value:Changes': 68, 'build:bare-record-value:Dsc': 65,
+                     'build:bare-record-value:PdiffIndex': 480, 'build:bare-record-value:Release-apt-ftparchive': 62,
+                     'build:bare-record-value:Release-dak': 68, 'eq:differs-in:first-column': 5400,
+                     'eq:differs-in:last-column': 5000, 'eq:differs-in:middle-column': 200, 'eq:differs-in:size':
+                     5400, 'eq:field-value:bare-record:reversed-key-order:dicts==value': 720,
                      'eq:field-value:bare-record:reversed-key-order:value==dicts': 730,
-                     'eq:field-value:bare-record:shuffled-key-order:dicts==value': 740,
+                     'eq:field-value:bare-record:shuffled-key-order:dicts==value': 730,
                      'eq:field-value:bare-record:shuffled-key-order:value==dicts': 710,
-                     'eq:field-value:list:reversed-key-order:dicts==value': 8700,
+                     'eq:field-value:list:reversed-key-order:dicts==value': 8600,
                      'eq:field-value:list:reversed-key-order:value==dicts': 8700,
-                     'eq:field-value:list:shuffled-key-order:dicts==value': 8800,
-                     'eq:field-value:list:shuffled-key-order:value==dicts': 8700, 'eq:list:differing-dict-not-in':
-                     7500, 'eq:list:differs-in-one-sub-field-of-one-record': 7500, 'eq:list:in+index': 15000,
-                     'eq:other-case-names:probed': 4100, 'eq:record:against-Deb822Dict-from-reversed-pairs': 4100,
-                     'eq:record:column-key-order': 16000, 'eq:record:columns:2': 880, 'eq:record:columns:3': 15000,
-                     'eq:record:columns:5': 520, 'eq:record:reversed-key-order': 16000,
-                     'eq:record:shuffled-key-order': 16000, 'eq:stage:parsed': 9800,
+                     'eq:field-value:list:shuffled-key-order:dicts==value': 8600,
+                     'eq:field-value:list:shuffled-key-order:value==dicts': 8500, 'eq:list:differing-dict-not-in':
+                     7400, 'eq:list:differs-in-one-sub-field-of-one-record': 7400, 'eq:list:in+index': 14000,
+                     'eq:other-case-names:probed': 4000, 'eq:record:against-Deb822Dict-from-reversed-pairs': 4000,
+                     'eq:record:column-key-order': 10000, 'eq:record:columns:2': 890, 'eq:record:columns:3': 14000,
+                     'eq:record:columns:5': 530, 'eq:record:reversed-key-order': 10000,
+                     'eq:record:shuffled-key-order': 10000, 'eq:stage:parsed': 9800,
                      'eq:stage:reparsed-dump-of-built-object': 13000, 'eq:stage:reparsed-dump-of-parsed-object':
                      14000, 'eq:two-parses:dumped-text-twice': 2700, 'eq:two-parses:same-text-twice': 1000,
-                     'eq:two-parses:text-and-its-dump': 8800, 'one:case': 200,
-                     'stable:built-as:bare-record:one-record': 840, 'stable:built-as:list': 12000,
-                     'stable:built-as:list:one-record': 3400, 'stable:built:BuildInfo:bare-record': 69,
-                     'stable:built:BuildInfo:list': 250, 'stable:built:Changes:bare-record': 69,
-                     'stable:built:Changes:list': 260, 'stable:built:Dsc:bare-record': 65, 'stable:built:Dsc:list':
-                     230, 'stable:built:PdiffIndex:bare-record': 480, 'stable:built:PdiffIndex:list': 2100,
-                     'stable:built:Release-apt-ftparchive:bare-record': 72,
-                     'stable:built:Release-apt-ftparchive:list': 230, 'stable:built:Release-dak:bare-record': 65,
-                     'stable:built:Release-dak:list': 230, 'stable:parsed:BuildInfo:bare-record': 270,
-                     'stable:parsed:BuildInfo:list': 250, 'stable:parsed:Changes:bare-record': 290,
-                     'stable:parsed:Changes:list': 250, 'stable:parsed:Dsc:bare-record': 250,
-                     'stable:parsed:Dsc:list': 240, 'stable:parsed:PdiffIndex:bare-record': 2300,
-                     'stable:parsed:PdiffIndex:list': 1700, 'stable:parsed:Release-apt-ftparchive:bare-record': 270,
-                     'stable:parsed:Release-apt-ftparchive:list': 250, 'stable:parsed:Release-dak:bare-record': 270,
-                     'stable:parsed:Release-dak:list': 250, 'stable:text-layout:mixed': 5000,
-                     'stable:text-layout:multi': 10000, 'stable:text-layout:multi:one-record': 3000,
-                     'stable:text-layout:single:one-record': 3700}},
-    'thorough': {'monitors': {}, 'counters': {}},
+                     'eq:two-parses:text-and-its-dump': 8700, 'one:case': 200,
+                     'stable:built-as:bare-record:one-record': 470, 'stable:built-as:list': 6100,
+                     'stable:built-as:list:one-record': 1700, 'stable:built:BuildInfo:bare-record': 36,
+                     'stable:built:BuildInfo:list': 110, 'stable:built:Changes:bare-record': 37,
+                     'stable:built:Changes:list': 130, 'stable:built:Dsc:bare-record': 34, 'stable:built:Dsc:list':
+                     110, 'stable:built:PdiffIndex:bare-record': 270, 'stable:built:PdiffIndex:list': 1000,
+                     'stable:built:Release-apt-ftparchive:bare-record': 36,
+                     'stable:built:Release-apt-ftparchive:list': 120, 'stable:built:Release-dak:bare-record': 40,
+                     'stable:built:Release-dak:list': 110, 'stable:parsed:BuildInfo:bare-record': 130,
+                     'stable:parsed:BuildInfo:list': 120, 'stable:parsed:Changes:bare-record': 120,
+                     'stable:parsed:Changes:list': 120, 'stable:parsed:Dsc:bare-record': 130,
+                     'stable:parsed:Dsc:list': 120, 'stable:parsed:PdiffIndex:bare-record': 1100,
+                     'stable:parsed:PdiffIndex:list': 870, 'stable:parsed:Release-apt-ftparchive:bare-record': 130,
+                     'stable:parsed:Release-apt-ftparchive:list': 130, 'stable:parsed:Release-dak:bare-record': 130,
+                     'stable:parsed:Release-dak:list': 110, 'stable:text-layout:mixed': 2400,
+                     'stable:text-layout:multi': 5300, 'stable:text-layout:multi:one-record': 1500,
+                     'stable:text-layout:single:one-record': 1900}},
+    'thorough': {
+        'monitors': {'M.eq': 1300000, 'M.eq.cmp': 11000000, 'M.eq.full': 510000, 'M.eq.two-parses': 390000, 'M.one':
+                     4000, 'M.stable': 280000, 'M.stable.one-record': 340000, 'M.stable.redump-with-one-record-field':
+                     210000},
+        'counters': {'build:bare-record-value': 28000, 'build:bare-record-value:BuildInfo': 2600,
+                     'build:bare-record-value:Changes': 2600, 'build:bare-record-value:Dsc': 2700,
+                     'build:bare-record-value:PdiffIndex': 15000, 'build:bare-record-value:Release-apt-ftparchive':
+                     2600, 'build:bare-record-value:Release-dak': 2600, 'eq:differs-in:first-column': 170000,
+                     'eq:differs-in:last-column': 160000, 'eq:differs-in:middle-column': 7100, 'eq:differs-in:size':
+                     170000, 'eq:field-value:bare-record:reversed-key-order:dicts==value': 23000,
+                     'eq:field-value:bare-record:reversed-key-order:value==dicts': 23000,
+                     'eq:field-value:bare-record:shuffled-key-order:dicts==value': 23000,
+                     'eq:field-value:bare-record:shuffled-key-order:value==dicts': 23000,
+                     'eq:field-value:list:reversed-key-order:dicts==value': 300000,
+                     'eq:field-value:list:reversed-key-order:value==dicts': 300000,
+                     'eq:field-value:list:shuffled-key-order:dicts==value': 300000,
+                     'eq:field-value:list:shuffled-key-order:value==dicts': 300000, 'eq:list:differing-dict-not-in':
+                     230000, 'eq:list:differs-in-one-sub-field-of-one-record': 230000, 'eq:list:in+index': 470000,
+                     'eq:other-case-names:probed': 120000, 'eq:record:against-Deb822Dict-from-reversed-pairs': 120000,
+                     'eq:record:column-key-order': 510000, 'eq:record:columns:2': 25000, 'eq:record:columns:3':
+                     470000, 'eq:record:columns:5': 17000, 'eq:record:reversed-key-order': 510000,
+                     'eq:record:shuffled-key-order': 510000, 'eq:stage:parsed': 300000,
+                     'eq:stage:reparsed-dump-of-built-object': 520000, 'eq:stage:reparsed-dump-of-parsed-object':
+                     480000, 'eq:two-parses:dumped-text-twice': 83000, 'eq:two-parses:same-text-twice': 31000,
+                     'eq:two-parses:text-and-its-dump': 270000, 'one:case': 4000,
+                     'stable:built-as:bare-record:one-record': 28000, 'stable:built-as:list': 400000,
+                     'stable:built-as:list:one-record': 100000, 'stable:built:BuildInfo:bare-record': 2600,
+                     'stable:built:BuildInfo:list': 8600, 'stable:built:Changes:bare-record': 2600,
+                     'stable:built:Changes:list': 8800, 'stable:built:Dsc:bare-record': 2700, 'stable:built:Dsc:list':
+                     8600, 'stable:built:PdiffIndex:bare-record': 15000, 'stable:built:PdiffIndex:list': 60000,
+                     'stable:built:Release-apt-ftparchive:bare-record': 2600,
+                     'stable:built:Release-apt-ftparchive:list': 8600, 'stable:built:Release-dak:bare-record': 2600,
+                     'stable:built:Release-dak:list': 8500, 'stable:parsed:BuildInfo:bare-record': 8800,
+                     'stable:parsed:BuildInfo:list': 8300, 'stable:parsed:Changes:bare-record': 9100,
+                     'stable:parsed:Changes:list': 8500, 'stable:parsed:Dsc:bare-record': 8700,
+                     'stable:parsed:Dsc:list': 8300, 'stable:parsed:PdiffIndex:bare-record': 71000,
+                     'stable:parsed:PdiffIndex:list': 50000, 'stable:parsed:Release-apt-ftparchive:bare-record': 8700,
+                     'stable:parsed:Release-apt-ftparchive:list': 8200, 'stable:parsed:Release-dak:bare-record': 8900,
+                     'stable:parsed:Release-dak:list': 8200, 'stable:text-layout:mixed': 150000,
+                     'stable:text-layout:multi': 340000, 'stable:text-layout:multi:one-record': 92000,
+                     'stable:text-layout:single:one-record': 110000}},
 }
 for _tier in ('quick', 'thorough'):
     FLOORS[_tier]['counters'].update(_EQ_FLOORS[_tier]['counters'])
     FLOORS[_tier]['monitors'].update(_EQ_FLOORS[_tier]['monitors'])
+# RE-MEASURED (round 8): the token generator now draws a hex / decimal / free-form token with ONE draw instead of one per
+# character (same distributions, different random streams) and RANDOM / HIST were trimmed by 5 % / 3 %, so the sparsely
+# sampled counters were re-rolled.  Every floor above was checked against new runs (VERIF_SEED 0..3 quick, seed 0 thorough);
+# where the new minimum is below 1.8 x the old floor the floor is replaced by 50 % of the new minimum (two digits kept), or
+# dropped (None) where the new minimum is below 40 (quick) / 60 (thorough).  All other floors remain <= 56 % of what is measured.
+_REMEASURED = {
+    'quick': {'counters': {'inv:char-input:U+0300:str': 21, 'inv:char-input:U+034F:str': None,
+                          'inv:char-input:U+180E:str': 21, 'inv:char-input:U+202E:str': None,
+                          'inv:char-input:U+2069:str': None, 'inv:char-input:U+20DD:str': 20,
+                          'inv:char-mode:U+061C:text': 89, 'inv:char-mode:U+202A:text': 85,
+                          'inv:char-mode:U+E0100:text': 77, 'inv:char-mode:U+FFFE:build': 74,
+                          'inv:char-pos:U+0300:end': 49, 'inv:char-pos:U+061C:mid': 55, 'inv:char-pos:U+200F:start':
+                          41, 'inv:char-pos:U+2066:end': 51, 'inv:char-pos:U+FE0F:end': 54,
+                          'inv:char-pos:U+FFF9:start': 41, 'inv:char-pos:U+FFFE:mid': 55,
+                          'inv:config-input:BuildInfo:file': 38, 'inv:config-input:Release-apt-ftparchive:bytes': 53,
+                          'inv:config-input:Release-apt-ftparchive:lines': 54,
+                          'inv:config-input:Release-apt-ftparchive:lines_nonl': 53, 'inv:pos-input:both:signed': 23,
+                          'inv:pos-input:start:signed': 50, 'route:step:grow:get.extend-gen': 28,
+                          'route:step:grow:held.extend-gen': 45, 'route:step:grow:setdefault.extend': 100},
+              'monitors': {}},
+    'thorough': {'counters': {}, 'monitors': {}},
+}
+for _tier in ('quick', 'thorough'):
+    for _kind in ('counters', 'monitors'):
+        for _k, _v in _REMEASURED[_tier][_kind].items():
+            if _v is None:
+                FLOORS[_tier][_kind].pop(_k, None)
+            else:
+                FLOORS[_tier][_kind][_k] = _v
 # MIXED-FLOORS: the enumerated mixed-layout class is deterministic - every structured field of every configuration
 # is parsed MIXED_REPS x {2, 3, 4 records} times (Release: x 2 behaviours); demand half of that per field, so a
 # run that does not drive the mixed layout for SOME field of SOME class is INCONCLUSIVE, not held.
@@ -1731,7 +1801,7 @@ def gen_size(r):
         return r.choice(['1k', '0x10', '-1', '1.5', '12:3', '#7', '\u0661\u0662'])   # still whitespace-free tokens
     if k < 0.12:
         return '0' * (n - 1) + r.choice('0123456789')                              # leading zeros
-    return r.choice('123456789') + ''.join(r.choice('0123456789') for _ in range(n - 1))
+    return str(r.randrange(10 ** (n - 1), 10 ** n))                 # uniform over the n-digit numbers, one draw
 
 
 def gen_token(r, sub, inv_p=None):
@@ -1749,7 +1819,7 @@ def _gen_token(r, sub):
     if sub == 'size':
         return gen_size(r)
     if k < 0.22:
-        s = ''.join(r.choice(HOSTILE_ATOMS) for _ in range(r.randint(1, 4)))
+        s = ''.join(r.choices(HOSTILE_ATOMS, k=r.randint(1, 4)))
     elif sub.lower() in HEXLEN and k < 0.55:
         s = '%0*x' % (HEXLEN[sub.lower()], r.getrandbits(4 * HEXLEN[sub.lower()]))     # one draw, not one per digit
     elif sub == 'date' and k < 0.7:
@@ -1762,7 +1832,7 @@ def _gen_token(r, sub):
     elif sub in ('section', 'priority') and k < 0.7:
         s = r.choice(['devel', 'non-free/libs', 'optional', 'extra', '-', 'byhand', 'raw-installer'])
     else:
-        s = ''.join(r.choice('abcdefXYZ0123456789._-+~/') for _ in range(r.randint(1, 10)))
+        s = ''.join(r.choices('abcdefXYZ0123456789._-+~/', k=r.randint(1, 10)))
     assert mv.is_ws_free_token(s), s
     return s
 
@@ -1822,7 +1892,7 @@ def sign(text):
 def size_of_len(r, n):
     """A plain decimal size token of exactly n characters."""
     n = max(1, n)
-    return r.choice('123456789') + ''.join(r.choice('0123456789') for _ in range(n - 1))
+    return str(r.randrange(10 ** (n - 1), 10 ** n))
 
 
 def mix_size_lengths(r, recs):
@@ -3343,6 +3413,8 @@ def _check_equality(ctx, deb822, clsname, obj, table, expect, stage, salt, full,
         rec = got[k]
         ctx.count('eq:record:columns:%d' % len(names))
         for oi, d in enumerate(variants[k]):
+            if oi == s % 3:
+                continue                            # two of the three key orders per record, rotating
             if oi == 0:
                 e, ne, how = rec == d, d != rec, ('rec == d', 'd != rec')
             elif oi == 1:
@@ -3366,14 +3438,15 @@ def _check_equality(ctx, deb822, clsname, obj, table, expect, stage, salt, full,
             alt += '~'
         d1 = dict(variants[k][s % 3])
         d1[names[c]] = alt
-        e1, e2, ne = rec == d1, d1 == rec, rec != d1
-        ncmp += 3
+        e1, e2 = (rec == d1, False) if (s // 2) % 2 else (False, d1 == rec)
+        ne = rec != d1
+        ncmp += 2
         ctx.count('eq:differs-in:%s' % ('size' if names[c] == 'size' else 'first-column' if c == 0 else
                                         'last-column' if c == len(names) - 1 else 'middle-column'))
         if e1 or e2:
             return _eq_fail(ctx, 'record-differing-in-one-sub-field-compares-equal', stage,
-                            '%s field %r record %d: rec == d is %r, d == rec is %r although sub-field %r differs; rec = %r, '
-                            'd = %r' % (clsname, f, k, e1, e2, names[c], rec, d1))
+                            '%s field %r record %d: %s is True although sub-field %r differs; rec = %r, d = %r'
+                            % (clsname, f, k, 'rec == d' if e1 else 'd == rec', names[c], rec, d1))
         if not ne:
             return _eq_fail(ctx, 'ne-is-not-the-negation-of-eq', stage,
                             '%s field %r record %d: rec != d is %r although sub-field %r differs; rec = %r, d = %r'
@@ -3695,8 +3768,9 @@ def dump_and_judge(ctx, cls, clsname, obj, state, via, origin, suffix='', deep=N
             return False
         if not check_same_records(ctx, clsname, obj2, obj2b, expect, 'dumped-text-twice', stage, len(txt) + 1):
             return False
-    # every case with a one-record field, every fourth of the others (decided by the dumped text: replayable)
-    if any(len(v) == 1 for v in expect.values()) or len(txt) % 4 == 0:
+    # the single-record class, every second case with a one-record field, every eighth of the others (decided by
+    # the dumped text: replayable)
+    if (deep.get('one') or len(txt) % (2 if any(len(v) == 1 for v in expect.values()) else 8) == 0):
         if not check_stability(ctx, clsname, obj, obj2, state, txt, origin):
             return False
         for f in expect:
@@ -5068,7 +5142,8 @@ def run_case(ctx, case):
         ctx.count('build:bare-record-value')
         ctx.count('build:bare-record-value:%s' % tag_of(clsname, case['behavior']))
     if dump_and_judge(ctx, cls, clsname, obj, state, case.get('dump_via', 'str'), origin,
-                      deep={'twice': twice_of(case), 'forms': case.get('forms')}) and wl and wl[0] == 'one':
+                      deep={'twice': twice_of(case), 'forms': case.get('forms'), 'one': bool(wl and wl[0] == 'one')}
+                      ) and wl and wl[0] == 'one':
         ctx.mon('M.one')
 
 
